@@ -252,6 +252,8 @@ def _loader_behaviours(ctx, quick):
 
     def differ(b):   # two accepted, unfinished requests with different fraction lists at the crash
         return any(len({json.dumps(b["lists"][r]) for r, q in enumerate(im) if q["info"] == "nd"}) >= 2 for im in b["crashes"])
+    for b in out:
+        b["differ"] = differ(b)
     if not any(differ(b) for b in out):
         raise vlib.Infra("AsyncSearchLoader.tla emitted no history whose crash leaves two unfinished requests with different fraction lists")
     return out, raw, sum(1 for b in out if differ(b))
